@@ -69,7 +69,7 @@ Fixpoint yield (a : ast) : list str :=
   | AMethod nm args v => yield v ++ nm :: ys args
   | AIndex i l => yield l ++ yield i
   | AListLit l => ys l
-  | AIdent x => [x]
+  | AIdent x _ => [x]
   | AConst c => [skipn 2 c]
   | ACall f args => yield f ++ ys args
   | _ => []
